@@ -44,6 +44,9 @@ type world struct {
 	chains  map[string]specChain
 	inserts map[string][]string // kernel chain -> rendered rule texts
 	appends map[string][]string
+	// clean: nobody has edited the table since Felix last re-read it (an Apply with a successful iptables-save and no
+	// edit before its restore): Felix's cached picture must then be accurate and every successful Apply must converge
+	clean    bool
 	hookRefs map[string][]string // "<kernel chain>/ins" or "/app" -> Felix chains the hook rules jump to
 	// out-of-band edits since the last successful Apply that re-read the table
 	opDesc string
@@ -384,6 +387,7 @@ func bools(s string) []bool {
 
 func (w *world) newTable(mode string) {
 	w.mode = mode
+	w.clean = false
 	w.fd = environment.NewFeatureDetector(nil)
 	w.fd.NewCmd = w.dp.NewCmd
 	w.fd.GetKernelVersionReader = w.dp.GetKernelVersionReader
@@ -469,6 +473,7 @@ func exec(w *world, op string) string {
 		w.newTable(ws[1])
 		return "ok"
 	case "kchain":
+		w.clean = false
 		var rs []string
 		for _, t := range splitList("|", ws[2]) {
 			p := strings.SplitN(t, ";", 3)
@@ -485,6 +490,7 @@ func exec(w *world, op string) string {
 		w.dp.Chains[ws[1]] = rs
 		return "ok"
 	case "kdelchain":
+		w.clean = false
 		delete(w.dp.Chains, ws[1])
 		return "ok"
 	case "chain":
@@ -540,6 +546,11 @@ func exec(w *world, op string) string {
 		w.trace = nil
 		if guard(func() { w.table.Apply() }) {
 			w.dead = true
+			if len(ws) == 1 {
+				// no save/restore failure and no concurrent edit was injected: the dataplane accepts every write
+				w.h.OracleFail("apply-gave-up", "Apply gave up (panicked) although no iptables-save/iptables-restore failure and no concurrent edit was injected",
+					map[string]any{"trace": w.trace, "op": op})
+			}
 			return "panic"
 		}
 		w.pre = ""
@@ -657,7 +668,14 @@ func (w *world) convergenceOracle(op string) {
 			sawSave = true
 		}
 	}
-	if !sawSave || editedAfter {
+	if editedAfter {
+		w.clean = false
+		return
+	}
+	if sawSave {
+		w.clean = true
+	}
+	if !w.clean {
 		return
 	}
 	refd := w.reachable("")
@@ -692,7 +710,7 @@ func (w *world) convergenceOracle(op string) {
 		}
 		want := append(append([]string{}, w.inserts[c]...), w.appends[c]...)
 		if strings.Join(mine, "\n") != strings.Join(want, "\n") {
-			w.h.OracleFail("hook-rules-not-converged", "after a successful Apply the Felix rules in a shared chain are not exactly the configured hooks, in order",
+			w.h.OracleFail("hook-chain-not-as-desired", "after a successful Apply the Felix rules in a shared chain are not exactly the configured hooks (inserted rules once, appended rules once), in order",
 				map[string]any{"chain": c, "kernel": mine, "desired": want, "op": op})
 			continue
 		}
@@ -719,7 +737,7 @@ func (w *world) convergenceOracle(op string) {
 			}
 		}
 		if !okPos {
-			w.h.OracleFail("hook-rules-misplaced", "Felix's hook rules are not at the configured position of the shared chain",
+			w.h.OracleFail("hook-chain-not-as-desired", "Felix's hook rules are not at the configured position of the shared chain (inserts at the configured end, appends last, other software's rules in between)",
 				map[string]any{"chain": c, "kernel": rs, "mode": w.mode, "op": op})
 		}
 	}
@@ -798,6 +816,18 @@ func genKRules(h *rt.H, w *world, chain string) string {
 			}
 		}
 	}
+	// no two identical Felix rules in one chain: the repo's mock deletes ALL copies on one `-D chain <rule>` (the real
+	// iptables deletes the first), so Felix's second delete-by-value would fail on the mock only and Apply would give up
+	seen := map[string]bool{}
+	var uniq []string
+	for _, t := range ts {
+		if !strings.HasPrefix(t, "f;") && seen[t] {
+			continue
+		}
+		seen[t] = true
+		uniq = append(uniq, t)
+	}
+	ts = uniq
 	if len(ts) == 0 {
 		return "-"
 	}
@@ -833,7 +863,29 @@ func genCase(h *rt.H, w *world) []string {
 	if h.Intn(6) == 0 {
 		emptyAt = h.Intn(n)
 	}
+	// motif (one case in four): the appended hook rules are the ONLY thing that changes between two Applies, with and
+	// without other software's rules in the chain
+	appAt := -1
+	if h.Intn(4) == 0 {
+		appAt = h.Intn(n)
+	}
 	for i := 0; i < n; i++ {
+		if i == appAt && i != motifAt && i != emptyAt {
+			c := rt.Pick(h, kernelCh)
+			if h.Bool() {
+				ops = append(ops, "kchain "+c+" f;"+esc(rt.Pick(h, []string{"-s 1.2.3.4/32 -j ACCEPT", "-j KUBE-FORWARD", "-p tcp -j DOCKER"})))
+			}
+			it := "j:" + rt.Pick(h, caliChains)
+			ops = append(ops, fmt.Sprintf("ins %s %s %s", c, it, w.drules(c, it, false)), "apply")
+			for j := 0; j < 1+h.Intn(2); j++ {
+				at := fmt.Sprintf("d:%d", h.Intn(4))
+				if h.Intn(3) == 0 {
+					at += "|r"
+				}
+				ops = append(ops, fmt.Sprintf("app %s %s %s", c, at, w.drules(c, at, true)), "apply")
+			}
+			continue
+		}
 		if i == emptyAt && i != motifAt {
 			c := rt.Pick(h, caliChains)
 			ops = append(ops, fmt.Sprintf("chain %s 1 - -", c), "apply", "kdelchain "+c, "invalidate", "apply")
